@@ -70,6 +70,19 @@ CLAIMED["C05"] = dict(
     design="6/C05",
 )
 
+CLAIMED["C11"] = dict(
+    text="Lean theorems (Props/C11.lean), for every operation history of any length and every hash function: the store's manifests "
+         "refine the abstract versioned store (one entry per change of the current version, none for a repeat); get_named_file is "
+         "the current version; in every reachable state the named file exists and its bytes hash to the fingerprint in its name; "
+         "the latest registration wins; stored versions keep their bytes until the name is removed; new instances and source edits "
+         "change nothing. Tie: suite `files` enumerates all histories to length 2 (quick) / 3 (thorough) over 21 operations plus "
+         "random longer ones against the real FileManager, comparing API and on-disk tree (real SHA-256 recomputed) with the abstract "
+         "store and the Lean model after every operation.",
+    note="SHA-256, shutil/os and JSON are outside the model (hash is a parameter; equality of bytes follows under injectivity).",
+    technique="Lean 4 proof (refinement to an abstract versioned store + invariant over operation histories) + exhaustive short histories",
+    design="6/C11",
+)
+
 NOT_YET = "check not built yet in this revision (planned: see DESIGN.md section 6); not claimed until its theorem and correspondence suite exist"
 
 
